@@ -303,17 +303,22 @@ def fault(detector, _id: str = "", level=0, level2=0, plan=None) -> None:
 
     plan = {"id": <_id of the failing model>, "step": <pipeline_count>, "level": <value of `level` of the failing run or None>,
             "nth": <raise at the n-th call of the failing model in this process, or None>, "exc": <class name>, "msg": <text>,
-            "note": <a note the model attaches itself, or None>}
+            "note": <a note the model attaches itself, or None>, "token": <unique id of this run of this case>}
     """
     import threading
 
-    LOG.append(("fault", str(_id), _canon_val(level), _canon_val(level2), int(detector.pipeline_count), threading.get_ident()))
+    # `token` identifies ONE run of ONE case: worker threads left over from an earlier run (pygmo islands / dask
+    # tasks that keep evaluating after the exception has already reached the caller) carry the earlier run's token,
+    # so they can neither take a ticket of the current run's counter nor be mistaken for its calls in the log
+    token = (plan or {}).get("token")
+    LOG.append(("fault", str(_id), _canon_val(level), _canon_val(level2), int(detector.pipeline_count), threading.get_ident(), token))
     if not plan or plan.get("id") != _id:
         return
     if plan.get("nth") is not None:
+        key = token if token is not None else "n"
         with _FAULT_LOCK:  # evaluations run in several threads: count and read atomically
-            FAULT_CALLS["n"] += 1
-            mine = FAULT_CALLS["n"]
+            FAULT_CALLS[key] = FAULT_CALLS.get(key, 0) + 1
+            mine = FAULT_CALLS[key]
         if mine != plan["nth"]:
             return
     else:
